@@ -760,7 +760,7 @@ class Batch:
 
     def __init__(self, crate, features, modules, specs, stubbing=False, jobs=8, harness_timeout=600,
                  host="src/lib.rs", moddir="src/verif_kani", modname="verif_kani", prefix="verif_kani", extra=None,
-                 pre_inject=None):
+                 pre_inject=None, more_injections=None):
         self.crate = crate
         self.features = features
         self.modules = modules
@@ -774,13 +774,19 @@ class Batch:
         self.prefix = prefix
         self.extra = extra
         self.pre_inject = pre_inject  # callable(scratch) for extra scratch-only edits (e.g. [patch] of wow_srp)
+        # further harness modules hosted by other module files of the same crate (needed where the items under
+        # contract are private to a module): list of dict(host=, moddir=, modname=, modules={})
+        self.more_injections = more_injections or []
 
 
 def run_batches(run, scratch, batches, log_prefix=None):
     for i, b in enumerate(batches):
         if b.pre_inject:
             run.injections += b.pre_inject(scratch) or []
-        run.injections += inject(scratch, b.crate, b.modules, host=b.host, moddir=b.moddir, modname=b.modname)
+        if b.modules:
+            run.injections += inject(scratch, b.crate, b.modules, host=b.host, moddir=b.moddir, modname=b.modname)
+        for inj in b.more_injections:
+            run.injections += inject(scratch, b.crate, inj["modules"], host=inj["host"], moddir=inj["moddir"], modname=inj.get("modname", "verif_kani"))
         names = list(b.specs.keys())
         if not names:
             continue
@@ -847,9 +853,14 @@ def replay_kani(prop, path, batches_for_scratch):
             return 2
         if b.pre_inject:
             b.pre_inject(scratch)
-        mods = dict(b.modules)
-        mods[j["module"]] = mods[j["module"]] + "\n" + j["playback_test"] + "\n"
-        inject(scratch, b.crate, mods, host=b.host, moddir=b.moddir, modname=b.modname)
+        hpath = j["harness"].split("::")
+        prefix = "::".join(hpath[:-2])
+        injs = [dict(host=b.host, moddir=b.moddir, modname=b.modname, modules=dict(b.modules), prefix=b.prefix)] if b.modules else []
+        injs += [dict(i, modules=dict(i["modules"])) for i in b.more_injections]
+        for inj in injs:
+            if inj.get("prefix", "verif_kani") == prefix and j["module"] in inj["modules"]:
+                inj["modules"][j["module"]] += "\n" + j["playback_test"] + "\n"
+            inject(scratch, b.crate, inj["modules"], host=inj["host"], moddir=inj["moddir"], modname=inj.get("modname", "verif_kani"))
         tn = re.search(r"fn (kani_concrete_playback_\w+)", j["playback_test"]).group(1)
         rc, out = kani_playback_run(scratch, b.crate, b.features, tn)
         print(out[-4000:])
